@@ -91,6 +91,34 @@ def run(ctx):
     except Exception:  # noqa: BLE001
         import traceback
         ctx.oblige('schedule range obligation of C03 ran', False, traceback.format_exc())
+    # GP's tree operators are opaque steps of the IR (TreeCopy/TreeSet/TreeCross): an exception inside one of them aborts the
+    # iteration loop.  The scripted case matrix of harness/c0809.py (every ordered pair of parent shapes of depth <= 2 over unary and
+    # binary nodes x every crossover/mutation point, every grow outcome, reproduction scripts, seeded GP runs) runs the real operators.
+    try:
+        rc3, data3, out3 = ctx.run_harness_json('c0809.py', payload={'mode': 'cases'}, timeout=3000)
+        if data3 is None:
+            ctx.oblige('GP tree operators: case matrix of harness/c0809.py ran', False, out3[-2000:])
+        else:
+            raised = [c for c in data3['cases'] if isinstance(c.get('o8'), str) and ' raised ' in c['o8']]
+            fams = {}
+            for c in data3['cases']:
+                fams[c['fam']] = fams.get(c['fam'], 0) + 1
+            ctx.cov['gp_tree_operator_cases'] = fams
+            ctx.oblige('GP tree operators (grow, _mutate, _cross, _reproduction, scripted GP runs) complete without an exception on %d scripted cases'
+                       % len(data3['cases']), not raised, '%d cases raised, e.g. %s' % (len(raised), raised[0]['o8'] if raised else ''))
+            seen = set()
+            for c in raised:
+                k = 'gp-tree-operator-raises:%s:%s' % (c['fam'], c['o8'].split(' raised ')[-1].split(':')[0].split('(')[0].strip()[:40])
+                if k in seen:
+                    continue
+                seen.add(k)
+                ctx.report(k, 'GP: %s on a scripted case (an exception inside a tree operator aborts run() before n_iterations iterations)' % c['o8'],
+                           {'kind': 'c0809_case', 'case': {kk: vv for kk, vv in c.items() if kk != 'exp'}})
+            if raised:
+                ctx.explain('GP tree operators')
+    except Exception:  # noqa: BLE001
+        import traceback
+        ctx.oblige('GP tree operator obligation of C03 ran', False, traceback.format_exc())
     ctx.cov['rule'] = ('theorems for all boxes/objectives/hooks/oracles/iteration counts per regenerated program; run monitor: configurations '
                        'run to completion under a wall-clock limit with hook count, sweep-follows-hook, iteration count and budget oracles')
     if ok:
@@ -102,4 +130,16 @@ def run(ctx):
 
 
 def replay(ctx, path):
+    import json
+    doc = json.load(open(path))
+    rp = doc.get('replay') if isinstance(doc.get('replay'), dict) else {}
+    if rp.get('kind') == 'c0809_case':
+        # re-run the case matrix on the current tree: the violation persists iff the same operator still raises
+        rc3, data3, out3 = ctx.run_harness_json('c0809.py', payload={'mode': 'cases'}, timeout=3000)
+        fam = rp['case'].get('fam')
+        still = data3 is None or any(isinstance(c.get('o8'), str) and ' raised ' in c['o8'] and c['fam'] == fam for c in data3['cases'])
+        print('replay %s: %s' % (doc.get('key'), 'still raises' if still else 'no longer raises'))
+        if still:
+            print('VIOLATION property=%s replay=%s' % (doc.get('property', ctx.pid), path))
+        return 1 if still else 0
     return _ir.replay(ctx, path)
